@@ -23,7 +23,7 @@ def run_one(prop, patch, tier, expect_key=None):
         os.makedirs(os.path.join(vdir, "evidence"))
         shutil.copy(os.path.join(V, "known_findings.json"), vdir)
         env = dict(os.environ, ZV_REPO=repo, ZV_VERIF=vdir)
-        out = subprocess.run([os.path.join(V, "bin", "zv"), "check", prop, "--tier", tier], env=env, capture_output=True, text=True)
+        out = subprocess.run([os.environ.get("ZV_BIN", os.path.join(V, "bin", "zv")), "check", prop, "--tier", tier], env=env, capture_output=True, text=True)
         txt = out.stdout + out.stderr
         if "meta load" in txt:
             return (prop, patch, "MUTANT-DOES-NOT-TYPECHECK", txt[-1500:])
